@@ -23,23 +23,27 @@ inductive Out (α : Type) where
 deriving Repr, DecidableEq
 
 /-- connection state that matters after the close: `closing` (0 none, 1 user, 2 poller), whether the
-finalizer ran (`tornDown`), whether OnConnect/OnRequest is set (`cb`: closeBuffer recycles unconditionally). -/
+finalizer ran (`tornDown`), whether OnConnect/OnRequest is set (`cb`: the hang-up tears the connection down by itself and
+closeBuffer recycles the output buffer unconditionally), whether an OnRequest handler is set (`req`: unread input has been
+offered to it, closeBuffer recycles the input buffer unconditionally; with OnConnect alone unread input is kept – fix D19). -/
 structure CC (α : Type) where
   closing : Nat
   tornDown : Bool
   cb : Bool
   input : LB α
   output : LB α
+  req : Bool := false
 deriving Repr, DecidableEq
 
 variable {α : Type}
 
 def closedLB : LB α := { nodes := [], r := 0, f := 0, w := 0, length := 0, mallocSize := 0, caches := 0, cachePeek := none }
 
-/-- `closeBuffer()`: a buffer is recycled if it is empty or a callback is set. -/
+/-- `closeBuffer()`: the input buffer is recycled if it is empty or an OnRequest handler is set, the output buffer if it
+is empty or any callback is set. -/
 def CC.closeBuffer (c : CC α) : CC α :=
   { c with
-    input := if c.input.length = 0 ∨ c.cb then closedLB else c.input
+    input := if c.input.length = 0 ∨ c.req then closedLB else c.input
     output := if c.output.length = 0 ∨ c.cb then closedLB else c.output }
 
 /-- the finalizer (stop flushing, free operator, close fd, closeBuffer), once. -/
